@@ -38,6 +38,10 @@ func isEngineControl(p any) bool {
 	return false
 }
 
+// maxDecisions bounds the symbolic decisions on one path (a loop whose trip
+// count is symbolic and unbounded ends as a truncated path / suspected hang).
+const maxDecisions = 4000
+
 // ---- configuration and results ----
 
 type Config struct {
@@ -435,6 +439,9 @@ func (e *explorer) decide(cond string, kind string) bool {
 		return false
 	}
 	k := len(e.taken)
+	if k > maxDecisions {
+		panic(budgetExceeded{"decisions"})
+	}
 	var d int32
 	if k < len(e.prefix) {
 		d = e.prefix[k]
